@@ -32,11 +32,15 @@ def make(ns, *, cols, textcols, oracle, gen_fn, solve_kw=None, counts=(250, 5000
     def replay(ctx, data):
         desc = data["case"]
         kw = (data.get("detail") or {}).get("solve_kw") or {"vtol": 1e-10, "itol": 1e-10}
+        if "_solve_kw" in desc:
+            kw = dict(desc["_solve_kw"])
         sys_, df, err = solved.solve_case(desc, kw)
         if err is not None:
             ctx.notes.append("replay: %s %r" % err)
             return
         obs = sysdesc.observe(df)
+        if not solved.rows_ok(ctx, desc, obs):
+            return
         model = solved.cert(ctx.drv, desc, obs, ta=kw.get("ta", 25.0))
         per_case(ctx, desc, obs, model, sys_, df, kw)
 
